@@ -57,6 +57,7 @@ type Model struct {
 const visitCap = 200
 
 type mstate struct {
+	scratch int // nested runs on a scratch store in progress
 	// cancellation-aware interpretation (aware == true): a cancel() scripted
 	// inside a callback, or a deadline passing on the model's clock, sets
 	// cancelled; from then on no new exec attempt and no new node is started
@@ -180,9 +181,12 @@ func runModelMode(sc *Scn, aware bool) *Model {
 		}
 		m.run = &MRun{FailEnd: -1}
 		m.steps = 0
-		if sc.Ctx.Kind == "precancel" || sc.Ctx.Kind == "predeadline" {
+		if (sc.Ctx.Kind == "precancel" || sc.Ctx.Kind == "predeadline") && (aware || sc.Nodes[sc.Root].Kind != "batch") {
 			m.run.Err = "ctx"
 		} else {
+			// (a batch node is entered even on a done context - its prep runs, no
+			// item is started; the uncancelled reading supplies the batch's items
+			// for the C11 rules)
 			a, e := m.runNode(sc.Root)
 			m.run.Action, m.run.Err = a, e
 			if sc.Via == "flowrun" && e == "" {
@@ -269,6 +273,28 @@ func (m *mstate) runFlow(n *NodeSpec) (string, string) {
 	return last, ""
 }
 
+// storeTag: which store the callbacks of the current (possibly nested) run see.
+func (m *mstate) storeTag() string {
+	if m.scratch > 0 {
+		return "S-other"
+	}
+	return "S0"
+}
+
+// enterScratch: a nested run on a scratch store leaves the run's own store alone.
+func (m *mstate) enterScratch(scratch bool) func() {
+	if !scratch {
+		return func() {}
+	}
+	last, trail := m.last, m.trail
+	m.last, m.trail = map[int]int{}, ""
+	m.scratch++
+	return func() {
+		m.scratch--
+		m.last, m.trail = last, trail
+	}
+}
+
 // execErrTok names the error a failing exec attempt returns. The "typednil"
 // flavour is one shared value (a nil pointer in a non-nil error interface): it
 // has no token of its own.
@@ -299,7 +325,7 @@ func (m *mstate) runLeaf(n *NodeSpec) (string, string) {
 		return "", "ctx"
 	}
 	if hasPhase(n, 0) {
-		m.emit(MEv{Kind: "prep_start", N: n.ID, V: v, S1: "S0"})
+		m.emit(MEv{Kind: "prep_start", N: n.ID, V: v, S1: m.storeTag()})
 		m.during(vs.Prep)
 		tok := fmt.Sprintf("n%dv%dp", n.ID, v)
 		if vs.Prep.Fail != "" {
@@ -333,6 +359,7 @@ func (m *mstate) runLeaf(n *NodeSpec) (string, string) {
 			m.emit(MEv{Kind: "exec_start", N: n.ID, V: v, A: a, S1: pdesc})
 			m.during(o)
 			if o.Nested > 0 && m.visits[n.ID] < 8 {
+				restore := m.enterScratch(o.NestedStore)
 				// the attempt runs a node itself (possibly this very node object,
 				// re-entrantly) and waits for it: a complete run inside the attempt,
 				// whose outcome does not matter to the attempt (the harness, too,
@@ -340,6 +367,7 @@ func (m *mstate) runLeaf(n *NodeSpec) (string, string) {
 				fe := m.run.FailEnd
 				m.runNode(o.Nested - 1)
 				m.run.FailEnd = fe
+				restore()
 			}
 			switch o.Fail {
 			case "":
@@ -385,14 +413,15 @@ func (m *mstate) runLeaf(n *NodeSpec) (string, string) {
 	}
 	action := "default"
 	if hasPhase(n, 2) {
-		m.emit(MEv{Kind: "post_start", N: n.ID, V: v, S1: "S0", S2: pdesc, S3: edesc})
+		m.emit(MEv{Kind: "post_start", N: n.ID, V: v, S1: m.storeTag(), S2: pdesc, S3: edesc})
 		m.during(vs.Post)
 		m.last[n.ID] = v
 		m.trail += fmt.Sprintf("n%dv%d;", n.ID, v)
 		tok := fmt.Sprintf("n%dv%dq", n.ID, v)
 		if vs.Post.Fail != "" {
-			m.run.FailEnd = m.emit(MEv{Kind: "post_end", N: n.ID, V: v, S1: "err:" + tok + "X"})
-			return "", tok + "X"
+			et := execErrTok(vs.Post, tok)
+			m.run.FailEnd = m.emit(MEv{Kind: "post_end", N: n.ID, V: v, S1: "err:" + et})
+			return "", et
 		}
 		m.emit(MEv{Kind: "post_end", N: n.ID, V: v, S1: "ok:" + vs.Post.Action})
 		action = normAction(vs.Post.Action)
@@ -504,7 +533,7 @@ func (m *mstate) runBatch(n *NodeSpec) (string, string) {
 	if m.cancelled {
 		m.unpredicted = true // a batch entered with a done context is C11's subject
 	}
-	m.emit(MEv{Kind: "prep_start", N: n.ID, V: v, S1: "S0"})
+	m.emit(MEv{Kind: "prep_start", N: n.ID, V: v, S1: m.storeTag()})
 	m.during(vs.Prep)
 	ptok := fmt.Sprintf("n%dv%dp", n.ID, v)
 	if vs.Prep.Fail != "" {
@@ -543,9 +572,11 @@ func (m *mstate) runBatch(n *NodeSpec) (string, string) {
 		if ex := vs.Items[i].Exec; len(ex) > 0 && ex[0].Nested > 0 && ex[0].Fail == "" && m.visits[n.ID] < 8 {
 			// the item's exec runs a batch node itself (possibly this very node
 			// object, re-entrantly) and waits for it: a complete run inside the item
+			restore := m.enterScratch(ex[0].NestedStore)
 			fe := m.run.FailEnd
 			m.runNode(ex[0].Nested - 1)
 			m.run.FailEnd = fe
+			restore()
 		}
 		if mi.Fails {
 			anyFail++
@@ -585,7 +616,7 @@ func (m *mstate) runBatch(n *NodeSpec) (string, string) {
 		if m.cancelled {
 			m.unpredicted = true // cancelled while the items were processed
 		}
-		mb.PostIdx = m.emit(MEv{Kind: "post_start", N: n.ID, V: v, S1: "S0", S2: itemsDesc, S3: s3})
+		mb.PostIdx = m.emit(MEv{Kind: "post_start", N: n.ID, V: v, S1: m.storeTag(), S2: itemsDesc, S3: s3})
 		m.during(vs.Post)
 		m.last[n.ID] = v
 		m.trail += fmt.Sprintf("n%dv%d;", n.ID, v)
